@@ -75,6 +75,16 @@ type textKey struct{ a, b int }
 
 func (t textKey) MarshalText() ([]byte, error) { return []byte(fmt.Sprintf("%d\n%d", t.a, t.b)), nil }
 
+type nilMarshalSlice []int
+
+func (s nilMarshalSlice) MarshalJSON() ([]byte, error) {
+	return []byte(fmt.Sprintf(`{"len":%d}`, len(s))), nil
+}
+
+type nilMarshalMap map[string]int
+
+func (m nilMarshalMap) MarshalJSON() ([]byte, error) { return []byte(fmt.Sprintf(`[%d]`, len(m))), nil }
+
 type nanStruct struct{ F float64 }
 type sample struct {
 	A int      `json:"a"`
@@ -179,6 +189,17 @@ func fieldAlphabet() []fieldCase {
 	add("Reflect(nil pointer of that type)", log.Reflect("r", (*chanBox)(nil)), null())
 	add("Any(map[string]any holding a chan)", log.Any("r", map[string]any{"c": make(chan int)}), anystr())
 	add("Any(map[string]any good)", log.Any("r", map[string]any{"c": 1}), raw(map[string]any{"c": 1}))
+	// nil values of every nilable kind, top level (where a shortcut for "nil means null" goes wrong: encoding/json
+	// rejects channels and functions whatever their value, and asks a value-receiver marshaler even for a nil slice / map)
+	add("Reflect(nil chan)", log.Reflect("r", (chan int)(nil)), anystr())
+	add("Reflect(nil func)", log.Reflect("r", (func())(nil)), anystr())
+	add("Any(nil chan)", log.Any("r", (chan string)(nil)), anystr())
+	add("Reflect(nil slice with a value-receiver marshaler)", log.Reflect("r", nilMarshalSlice(nil)), raw(nilMarshalSlice(nil)))
+	add("Reflect(nil map with a value-receiver marshaler)", log.Reflect("r", nilMarshalMap(nil)), raw(nilMarshalMap(nil)))
+	add("Reflect(nil map)", log.Reflect("r", map[string]int(nil)), null())
+	add("Reflect(nil slice)", log.Reflect("r", []int(nil)), null())
+	add("Reflect(nil pointer)", log.Reflect("r", (*sample)(nil)), null())
+	add("Reflect(nil error interface in a struct)", log.Reflect("r", struct{ E error }{nil}), raw(struct{ E error }{nil}))
 	// json.Marshaler / TextMarshaler values: whatever the marshaler returns, the line is one valid JSON line
 	// (encoding/json's own contract: output validated and compacted, invalid output = marshal error)
 	pretty := "{\n  \"a\": 1,\n  \"b\": [ 1,\t2 ],\r\n  \"c\": \"x y\"\n}"
@@ -466,6 +487,22 @@ func encEvent(c layoutCase) (*log.Event, []string, []rv, *log.Event) {
 	return e, keys, vals, parent
 }
 
+// encPanicEvent: an event whose custom array encoder panics after opening nested containers, followed by a
+// marshaler that panics.
+type panicMarshal struct{}
+
+func (panicMarshal) MarshalJSON() ([]byte, error) { panic("user marshaler panics") }
+
+var encPanicEvent = &log.Event{Level: log.ErrorLevel, Time: encTime, File: "p.go", Line: 1, Tag: "_enc_tag", CtxString: "panicking",
+	Fields: []log.Field{log.String("before", "x"), log.Array("boom", arrEnc{func(e log.Encoder) {
+		e.AppendInt64(1)
+		e.AppendObjectBegin()
+		e.AppendKey("k")
+		e.AppendArrayBegin()
+		e.AppendString("inside")
+		panic("user array encoder panics")
+	}}), log.Reflect("never", panicMarshal{})}}
+
 func encCheck(prop string) func(c layoutCase) (string, []Violation, int) {
 	jl := &log.JSONLayout{BaseLayout: log.BaseLayout{FileLineLength: 48}}
 	tl := &log.TextLayout{BaseLayout: log.BaseLayout{FileLineLength: 48}}
@@ -487,6 +524,12 @@ func encCheck(prop string) func(c layoutCase) (string, []Violation, int) {
 		e, keys, vals, parent := encEvent(c)
 		var jline, tline []byte
 		var pn any
+		// history: an earlier log call whose user-supplied encoding code panicked half-way through a nested value
+		// (the application recovered). Whatever the layouts pool or cache must not carry that state into this event.
+		for _, l := range []log.Layout{jl, tl} {
+			l := l
+			safeCall(func() { l.ToBytes(encPanicEvent) })
+		}
 		func() {
 			defer func() { pn = recover() }()
 			if parent != nil {
